@@ -54,10 +54,10 @@ what the file holds. -/
 def CleanReuse (s : State σ) (q : Req) : Prop :=
   ∀ st, q.step = some st → checkHRS s.mem ⟨q.h, q.r, st⟩ = .same → s.mem = s.disk
 
-/-- The request (if any) that `step` serves for this op in this state. -/
-def servedReq (s : State σ) : Op → Option Req
+/-- The request (if any) that the RUNNING process serves for this op (a `cut`
+request is served by a freshly started process, whose memory is the file). -/
+def servedReq (_s : State σ) : Op → Option Req
   | .sign q => some q
-  | .cut _ q => if s.failing then none else some q
   | _ => none
 
 /-- Along the whole history, the same-HRS branch is only taken from a memory
